@@ -185,6 +185,34 @@ def exitMain (portable : Bool) (stack : List Frame) (status : Nat) (args : List 
     | none => reportError stack
     | some exitStatus => ⟨status, .break_ (.exit exitStatus)⟩
 
+/-- what the suspended-jobs guard of `exit` reads from the environment: the `interactive` and `posixlycorrect`
+    options, whether a `SuspendedJobsGuardConfig` is stored in `env.any`, whether some job is stopped -/
+structure ExitGuard where
+  interactive : Bool := false
+  posix : Bool := false
+  configured : Bool := false
+  stoppedJob : Bool := false
+  deriving DecidableEq, Repr
+
+/-- `Env::is_interactive`: the option is on and the shell is not in a subshell -/
+def isInteractive (optInteractive : Bool) (stack : List Frame) : Bool :=
+  optInteractive && !stack.contains .subshell
+
+/-- `exit::main` in full: after the options and the operand (their errors come first), the suspended-jobs guard —
+    without `-f`, in an interactive shell that is not `posixlycorrect`, with the guard configured and a stopped job,
+    the built-in refuses: status `FAILURE` and `Interrupt(None)` (which an interactive shell survives) -/
+def exitMainG (g : ExitGuard) (portable : Bool) (stack : List Frame) (status : Nat) (args : List Str) : BResult :=
+  match Args.parseArguments exitSpecs (modeWithEnv portable) args with
+  | .error _ => reportError stack
+  | .ok (options, operands) =>
+    let force := options.any fun o => o.spec.short == some 'f'
+    match statusOperand operands with
+    | none => reportError stack
+    | some exitStatus =>
+      if !force && isInteractive g.interactive stack && !g.posix && g.configured && g.stoppedJob then
+        ⟨ExecTables.FAILURE, .break_ (.interrupt none)⟩
+      else ⟨status, .break_ (.exit exitStatus)⟩
+
 /-! ### the caller: `execute_builtin` -/
 
 /-- `execute_builtin` after the redirections and assignments: push `Frame::Builtin`, run `main`, pop;
